@@ -231,7 +231,7 @@ def shape_obj(item, ob):
         e = expected_py(v)
         if e == 'ERR': exp = {'prefix': 'ERR'}
         elif e == 'null': exp = {'equals': 'OK null'}
-        else: exp = {'equals': 'OK ' + (show_elem(kind, e) if kind != 'string' else chr(97 + e))}
+        else: exp = {'equals': 'OK ' + (show_elem(kind, e) if kind != 'string' else f'"{chr(97 + e)}"')}
         return {'program': opname(src_seq(kind, n), l), 'expect': exp}
     for pc, kd, res, lg in E.explore(run):
         ob.paths += 1; name = f'{fn} {kind}[{n}] index:{ik}'; pref = prefer_all(S) if S else ()
@@ -292,7 +292,7 @@ def shape_slice(item, ob):
         if kind == 'list': exp = 'OK [' + ', '.join(items) + ']'
         elif kind == 'vector': exp = 'OK V(' + ', '.join(items) + ')'
         elif kind == 'bytes': exp = 'OK B[' + ','.join(items) + ']'
-        else: exp = 'OK ' + ''.join(chr(97 + k) for k in range(l, h))
+        else: exp = 'OK "' + ''.join(chr(97 + k) for k in range(l, h)) + '"'
         return {'program': prog, 'expect': {'equals': exp}, 'loose': kind in ('bytes', 'string')}
     for pc, kd, res, lg in E.explore(run):
         ob.paths += 1; name = f'slice_seq {kind}[{n}] [{lk}:{hk}]'; pref = prefer_all(*[s for s in (SL, SH) if s])
